@@ -169,7 +169,7 @@ CHECKS = {
         "engine": engines.engine_c20,
         "engine_name": "c20_values.py",
         "technique": "bounded-exhaustive enumeration of ranges, bin counts, statistics and fill values through the built Python extension, compared with a pure-Python per-base reference",
-        "rule": "exhaustive: for every encoder-written bigWig / bigBed file on a 12-base chromosome, every range s in -3..11 x e in s+1..15 (below 0 and past the end included) x bins in {None} u 1..(e-s) x {mean,min,max} x exact {True,False} x (missing,oob) in {(0,NaN),(-1,-7),(NaN,0)} through pybigtools.open(path).values(...) of the extension built from /repo. Oracle: per-base = stored value / depth, missing where no data, oob outside [0,len); exact bins of integral width = statistic over the covered bases (missing when none; oob when wholly outside; partly outside: don't-care); every width: never NaN for finite data and fills, value within the data touching the bin's span (inexact: within the chromosome's data range) or missing; no exception, no abort. evaluations = (file, start) blocks; non-trivial = file with >=2 data bases",
+        "rule": "exhaustive: for every encoder-written bigWig / bigBed file on a 12-base chromosome, every range s in -3..15 x e in s+1..max(15,s+3) (below 0, past the end and starting beyond the end included) x bins in {None} u 1..(e-s) x {mean,min,max} x exact {True,False} x (missing,oob) in {(0,NaN),(-1,-7),(NaN,0)} through pybigtools.open(path).values(...) of the extension built from /repo. Oracle: per-base = stored value / depth, missing where no data, oob outside [0,len); exact bins of integral width = statistic over the covered bases (missing when none; oob when wholly outside; partly outside: don't-care); every width: never NaN for finite data and fills, value within the data touching the bin's span (inexact: within the chromosome's data range) or missing; no exception, no abort. evaluations = (file, start) blocks; non-trivial = file with >=2 data bases",
         "require": ["calls", "per_base_calls", "exact_integral_bins", "exact_fractional_bins", "inexact_calls", "oob_cells", "bigwig_files", "bigbed_files"],
         "assumptions": E1_ASSUME + ["files come from the independent encoder, so reader/writer defects of other properties cannot fake or mask a result",
                                     "interpolated (exact=False) mode has no sharper oracle in the statement than range and NaN-freedom"],
